@@ -46,49 +46,13 @@ func c09Body(env *simrt.Env) {
 	}
 	w.F0 = FrameIndex([]int64{0, 5, 1 << 36}[simrt.Draw(3)])
 	w.T0 = time.Now()
-	nblocks := 6 + simrt.Draw(25)
-	var blocks []int
-	total := 0
-	for i := 0; i < nblocks; i++ {
-		n := []int{nsamp / 2, nsamp, 2 * nsamp, 3*nsamp + 1, 5}[simrt.Draw(5)]
-		if n < 1 {
-			n = 1
-		}
-		blocks = append(blocks, n)
-		total += n
-	}
-	edges := edgesOf(blocks)
-	specs := make([]streamSpec, nchan)
-	w.stream = make([][]RawType, nchan)
-	for c := 0; c < nchan; c++ {
-		w.stream[c], specs[c] = genStream(total, edges, w.signed[c], nsamp)
-	}
-	env.Op("group-trigger world nchan=%d nsamp=%d npre=%d blocks=%v", nchan, nsamp, npre, blocks)
-	if err := w.startScripted(); err != nil {
-		simrt.Fail("harness.start", "harness:start", "Start failed: %v", err)
-	}
-	// trigger settings: some channels auto (steady primaries), some edge/level, some none
-	tss := make([]TriggerState, nchan)
-	for c := 0; c < nchan; c++ {
-		var ts TriggerState
-		switch simrt.Draw(4) {
-		case 0: // no trigger enabled on this channel
-			ts = TriggerState{AutoDelay: 250 * time.Millisecond, EdgeLevel: 100, EdgeRising: true, LevelLevel: 4000}
-		case 1:
-			ts = TriggerState{AutoTrigger: true, AutoDelay: time.Duration(float64(nsamp+simrt.Draw(2*nsamp)) / rate * float64(time.Second)), EdgeLevel: 100, EdgeRising: true}
-		default:
-			ts = genTriggerState(specs[c], w.signed[c], nsamp, rate, true)
-		}
-		var ok bool
-		st := FullTriggerState{ChannelIndices: []int{c}, TriggerState: ts}
-		if err := w.sc.ConfigureTriggers(&st, &ok); err != nil {
-			simrt.Fail("harness.configure", "harness:configure", "ConfigureTriggers rejected: %v", err)
-		}
-		tss[c] = st.TriggerState
-		env.Op("chan %d: %s", c, tsString(&ts))
-	}
+	// The source has one to three runs. A run ends by a client's Stop or (a fault) by itself: the hardware
+	// delivers an error block, or the data channel closes.
+	nruns := 1 + simrt.Draw(3)
+	env.Op("group-trigger world nchan=%d nsamp=%d npre=%d runs=%d", nchan, nsamp, npre, nruns)
 
 	conn := map[pair]bool{} // reference connection set
+	var tss []TriggerState  // trigger settings of the current run
 	valid := func(i int) bool { return i >= 0 && i < nchan }
 	drawIdx := func() int {
 		if simrt.Draw(5) == 0 {
@@ -106,6 +70,18 @@ func c09Body(env *simrt.Env) {
 		}
 		return m
 	}
+	setOf := func(gts GroupTriggerState, what string) map[pair]bool {
+		got := map[pair]bool{}
+		for s, rxs := range gts.Connections {
+			for _, r := range rxs {
+				if got[pair{s, r}] {
+					simrt.Fail("C09.reported", "group:report-duplicate", "connection %d->%d reported twice after %s", s, r, what)
+				}
+				got[pair{s, r}] = true
+			}
+		}
+		return got
+	}
 	checkReported := func(what string) {
 		w.drain()
 		m, ok := w.sk.lastMsg("GROUPTRIGGER")
@@ -116,48 +92,46 @@ func c09Body(env *simrt.Env) {
 		if !isGts {
 			simrt.Fail("C09.reported", "group:report-type", "GROUPTRIGGER status carries %T", m.state)
 		}
-		got := map[pair]bool{}
-		for s, rxs := range gts.Connections {
-			for _, r := range rxs {
-				if got[pair{s, r}] {
-					simrt.Fail("C09.reported", "group:report-duplicate", "connection %d->%d reported twice after %s", s, r, what)
-				}
-				got[pair{s, r}] = true
-			}
-		}
+		got := setOf(gts, what)
 		if connString(got) != connString(conn) {
 			simrt.Fail("C09.reported", "group:reported-set-differs", "after %s the reported connections are %s, set semantics give %s", what, connString(got), connString(conn))
+		}
+	}
+	add := func(m map[int][]int) {
+		var ok bool
+		err := w.sc.AddGroupTriggerCoupling(GroupTriggerState{Connections: m}, &ok)
+		env.Op("add %v -> %v", m, err)
+		for s, rxs := range m {
+			for _, r := range rxs {
+				if valid(s) && valid(r) && s != r {
+					conn[pair{s, r}] = true
+				} else if !valid(s) || !valid(r) {
+					simrt.Hit("out-of-range-index-in-add")
+				}
+			}
+		}
+	}
+	del := func(m map[int][]int) {
+		var ok bool
+		err := w.sc.DeleteGroupTriggerCoupling(&GroupTriggerState{Connections: m}, &ok)
+		env.Op("delete %v -> %v", m, err)
+		for s, rxs := range m {
+			for _, r := range rxs {
+				if !conn[pair{s, r}] {
+					simrt.Hit("delete-of-nonexistent-pair")
+				}
+				delete(conn, pair{s, r})
+			}
 		}
 	}
 	request := func() {
 		var ok bool
 		switch simrt.Draw(8) {
 		case 0, 1, 2:
-			m := drawMap()
-			err := w.sc.AddGroupTriggerCoupling(GroupTriggerState{Connections: m}, &ok)
-			env.Op("add %v -> %v", m, err)
-			for s, rxs := range m {
-				for _, r := range rxs {
-					if valid(s) && valid(r) && s != r {
-						conn[pair{s, r}] = true
-					} else if !valid(s) || !valid(r) {
-						simrt.Hit("out-of-range-index-in-add")
-					}
-				}
-			}
+			add(drawMap())
 			checkReported("add")
 		case 3, 4:
-			m := drawMap()
-			err := w.sc.DeleteGroupTriggerCoupling(&GroupTriggerState{Connections: m}, &ok)
-			env.Op("delete %v -> %v", m, err)
-			for s, rxs := range m {
-				for _, r := range rxs {
-					if !conn[pair{s, r}] {
-						simrt.Hit("delete-of-nonexistent-pair")
-					}
-					delete(conn, pair{s, r})
-				}
-			}
+			del(drawMap())
 			checkReported("delete")
 		case 5:
 			var dummy bool
@@ -177,48 +151,245 @@ func c09Body(env *simrt.Env) {
 			simrt.Hit("err-fb-coupling-request")
 		}
 	}
-
-	for bi, n := range blocks {
-		if simrt.Draw(3) == 0 {
-			w.sync()
-			w.drain()
-			request()
-		}
-		first := w.sk.nBatches
-		firstRec := len(w.sk.recs)
-		w.feedBlock(n, nil)
+	// requestWithStatusConsumerBehind (a fault): the consumer of the status queue stops taking messages (a slow
+	// subscriber) while status traffic goes on - a monitoring client asks for the full status (two messages per
+	// request), the last free place is taken by the answer to a query (an add of nothing) - until the queue is
+	// full; then an add or delete request is served (sometimes with a second client's SendAllStatus waiting for
+	// room next to it). The consumer resumes a drawn number of scheduler steps later. Whatever was lost or kept
+	// on the way, once everything is drained the latest GROUPTRIGGER message must be the set in force.
+	requestWithStatusConsumerBehind := func() {
 		w.sync()
 		w.drain()
-		checkCycle(w, bi, first, firstRec, conn, tss)
-	}
-	w.stop()
-	w.drain()
-	per := w.perChannel()
-	for c := 0; c < nchan; c++ {
-		o := chanObs{recs: per[c].recs, epochs: []epoch{{ts: tss[c], npre: npre, nsamp: nsamp}}}
-		checkExcerpts(w, c, &o)
-	}
-	// A restart: the state a client holds (the latest GROUPTRIGGER message) must equal the set the
-	// restarted source actually uses, whatever the implementation does with connections across runs.
-	if simrt.Draw(2) == 0 {
-		w.sent, w.fed = 0, 0
-		if err := w.startScripted(); err != nil {
-			simrt.Fail("harness.start", "harness:restart", "second Start failed: %v", err)
-		}
-		w.drain()
-		used := map[pair]bool{}
-		for s, rxs := range w.ss.ComputeGroupTriggerState().Connections {
-			for _, r := range rxs {
-				used[pair{s, r}] = true
+		simrt.Stall("harness:sink-status", 1<<30)
+		env.Op("the status consumer falls behind")
+		armedAt := -1
+		k := 3 + simrt.Draw(150)
+		simrt.GoHarness("status-consumer-resumes", func() {
+			// k steps after the coupling request is issued (or, as a safety net, 6000 steps from now)
+			for s0 := simrt.Steps(); !(armedAt >= 0 && simrt.Steps()-armedAt >= k) && simrt.Steps()-s0 < 6000; {
+				simrt.Gosched()
+			}
+			simrt.Unstall()
+		})
+		leave := []int{0, 0, 0, 0, 1, 3}[simrt.Draw(6)] // places left free in the queue (mostly none)
+		for n := 0; cap(clientMessageChan)-len(clientMessageChan) > leave && n < 40; n++ {
+			var ok bool
+			if cap(clientMessageChan)-len(clientMessageChan) >= 2 {
+				var dummy string
+				w.sc.SendAllStatus(&dummy, &ok)
+			} else {
+				w.sc.AddGroupTriggerCoupling(GroupTriggerState{Connections: map[int][]int{}}, &ok)
 			}
 		}
-		conn = used
-		checkReported("a restart of the source")
-		simrt.Hit("restart-with-connections-reported")
-		w.stop()
-		w.drain()
+		env.Op("status traffic: %d of %d places of the queue taken", len(clientMessageChan), cap(clientMessageChan))
+		trafficDone := make(chan struct{})
+		nsend := []int{0, 0, 1, 3}[simrt.Draw(4)]
+		simrt.GoHarness("second-client", func() {
+			for i := 0; i < nsend; i++ {
+				var dummy string
+				var ok bool
+				w.sc.SendAllStatus(&dummy, &ok)
+			}
+			close(trafficDone)
+		})
+		if len(clientMessageChan) == cap(clientMessageChan) {
+			simrt.Hit("status-queue-full-when-a-coupling-request-is-served")
+		}
+		armedAt = simrt.Steps()
+		what := "add with the status consumer behind"
+		if len(conn) > 0 && simrt.Draw(2) == 0 {
+			// delete an existing connection (the request certainly changes the set)
+			var ps []pair
+			for p := range conn {
+				ps = append(ps, p)
+			}
+			sort.Slice(ps, func(i, j int) bool { return ps[i].s < ps[j].s || ps[i].s == ps[j].s && ps[i].r < ps[j].r })
+			p := ps[simrt.Draw(len(ps))]
+			del(map[int][]int{p.s: {p.r}})
+			what = "delete with the status consumer behind"
+		} else {
+			add(drawMap())
+		}
+		<-trafficDone
+		checkReported(what)
 	}
-	env.Sample(map[string]interface{}{"nchan": nchan, "blocks": len(blocks), "final_connections": connString(conn), "records": len(w.sk.recs)})
+
+	restartKeeps := "" // what a restart does to a non-empty connection set, as observed so far in this history
+	restartKeepsAfter := ""
+	lastEnd := ""
+	restartsWithConn := map[string]bool{}
+	for run := 0; run < nruns; run++ {
+		// this run's blocks and ground-truth streams
+		nblocks := 2 + simrt.Draw(9)
+		if run == 0 {
+			nblocks = 6 + simrt.Draw(25)
+			if nruns > 1 {
+				nblocks = 4 + simrt.Draw(12)
+			}
+		}
+		var blocks []int
+		total := 0
+		for i := 0; i < nblocks; i++ {
+			n := []int{nsamp / 2, nsamp, 2 * nsamp, 3*nsamp + 1, 5}[simrt.Draw(5)]
+			if n < 1 {
+				n = 1
+			}
+			blocks = append(blocks, n)
+			total += n
+		}
+		edges := edgesOf(blocks)
+		specs := make([]streamSpec, nchan)
+		w.stream = make([][]RawType, nchan)
+		for c := 0; c < nchan; c++ {
+			w.stream[c], specs[c] = genStream(total, edges, w.signed[c], nsamp)
+		}
+		w.sent, w.fed = 0, 0
+		w.blockFirst, w.blockStamp = nil, nil
+		recStart := len(w.sk.recs)
+		env.Op("run %d: blocks=%v", run, blocks)
+		if err := w.startScripted(); err != nil {
+			simrt.Fail("harness.start", "harness:start", "Start number %d failed: %v", run+1, err)
+		}
+		if run > 0 {
+			// A restart: the state a client holds (the latest GROUPTRIGGER message) must equal the set the
+			// restarted source actually uses. Whether a new run starts from the empty set or keeps the
+			// connections of the previous one is the implementation's business (no request says either), but
+			// it cannot depend on how the previous run came to its end: that is not a coupling request.
+			w.drain()
+			prev := conn
+			conn = setOf(w.ss.ComputeGroupTriggerState(), "a restart of the source")
+			checkReported("a restart of the source")
+			simrt.Hit("restart-with-connections-reported")
+			if lastEnd != "a client's Stop" {
+				simrt.Hit("restart-after-the-run-ended-by-itself")
+			}
+			if len(prev) > 0 {
+				keeps := ""
+				switch connString(conn) {
+				case connString(map[pair]bool{}):
+					keeps = "starts from the empty set"
+				case connString(prev):
+					keeps = "keeps the connections"
+				default:
+					simrt.Fail("C09.restart", "group:restart-set-neither-empty-nor-previous", "the run before this restart ended (by %s) with connections %s; the restarted source uses %s", lastEnd, connString(prev), connString(conn))
+				}
+				if restartKeeps != "" && keeps != restartKeeps {
+					simrt.Fail("C09.restart", "group:restart-set-depends-on-how-the-run-ended", "restart number %d, after a run that ended by %s with connections %s, %s (now %s), but the restart after a run that ended by %s: %s; the way a run ends is not a coupling request", run, lastEnd, connString(prev), keeps, connString(conn), restartKeepsAfter, restartKeeps)
+				}
+				restartKeeps, restartKeepsAfter = keeps, lastEnd
+				if lastEnd == "a client's Stop" {
+					restartsWithConn["stop"] = true
+					simrt.Hit("restart-after-stop-with-connections")
+				} else {
+					restartsWithConn["self"] = true
+					simrt.Hit("restart-after-self-end-with-connections")
+				}
+				if len(restartsWithConn) == 2 {
+					simrt.Hit("both-kinds-of-restart-with-connections-in-one-history")
+				}
+			}
+		}
+		// trigger settings: some channels auto (steady primaries), some edge/level, some none
+		tss = make([]TriggerState, nchan)
+		for c := 0; c < nchan; c++ {
+			var ts TriggerState
+			switch simrt.Draw(4) {
+			case 0: // no trigger enabled on this channel
+				ts = TriggerState{AutoDelay: 250 * time.Millisecond, EdgeLevel: 100, EdgeRising: true, LevelLevel: 4000}
+			case 1:
+				ts = TriggerState{AutoTrigger: true, AutoDelay: time.Duration(float64(nsamp+simrt.Draw(2*nsamp)) / rate * float64(time.Second)), EdgeLevel: 100, EdgeRising: true}
+			default:
+				ts = genTriggerState(specs[c], w.signed[c], nsamp, rate, true)
+			}
+			var ok bool
+			st := FullTriggerState{ChannelIndices: []int{c}, TriggerState: ts}
+			if err := w.sc.ConfigureTriggers(&st, &ok); err != nil {
+				simrt.Fail("harness.configure", "harness:configure", "ConfigureTriggers rejected: %v", err)
+			}
+			tss[c] = st.TriggerState
+			env.Op("chan %d: %s", c, tsString(&ts))
+		}
+		if nruns > 1 && simrt.Draw(2) == 0 {
+			// connections made early in the run (so that most runs end with some)
+			add(drawMap())
+			checkReported("add")
+		}
+
+		for bi, n := range blocks {
+			if simrt.Draw(3) == 0 {
+				w.sync()
+				w.drain()
+				if env.Faulted() && simrt.Draw(4) == 0 {
+					requestWithStatusConsumerBehind()
+				} else {
+					request()
+				}
+			}
+			first := w.sk.nBatches
+			firstRec := len(w.sk.recs)
+			w.feedBlock(n, nil)
+			w.sync()
+			w.drain()
+			checkCycle(w, bi, first, firstRec, conn, tss)
+			if run > 0 && len(conn) > 0 {
+				simrt.Hit("cycle-with-connections-after-a-restart")
+			}
+		}
+
+		// the end of the run
+		lastEnd = "a client's Stop"
+		endKind := 0
+		if env.Faulted() {
+			endKind = simrt.Draw(3)
+		}
+		if endKind == 0 {
+			w.stop()
+		} else {
+			if endKind == 1 {
+				lastEnd = "an error block from the hardware"
+				b := new(dataBlock)
+				b.err = fmt.Errorf("scripted hardware error")
+				w.ss.feed <- b
+			} else {
+				lastEnd = "the data channel closing"
+				w.ss.feed <- nil
+			}
+			env.Op("the run ends by %s", lastEnd)
+			simrt.Fault("self-termination")
+			t0 := time.Now()
+			for w.ss.Running() || (endKind == 1 && w.ss.delivered <= w.fed) {
+				if time.Since(t0) > 60*time.Second {
+					simrt.Fail("harness.self-end", "harness:self-termination-ignored", "the source is still running 60 s after %s; tasks %v", lastEnd, simrt.AliveTaskInfo())
+				}
+				time.Sleep(200 * time.Microsecond)
+			}
+			firstRec := len(w.sk.recs)
+			w.drain()
+			if len(w.sk.recs) != firstRec {
+				simrt.Fail("C09.secondaries", "group:records-after-the-end-of-the-run", "%d records were published after %s", len(w.sk.recs)-firstRec, lastEnd)
+			}
+			if simrt.Draw(2) == 0 {
+				// a client that does not know the source has ended asks for Stop
+				w.stop()
+			} else {
+				w.sc.handlePossibleStoppedSource()
+			}
+		}
+		w.drain()
+		per := make([]chanObs, nchan)
+		for _, r := range w.sk.recs[recStart:] {
+			c := r.rec.channelIndex
+			if c < 0 || c >= nchan {
+				simrt.Fail("C01.channel-index", "record:bad-channel-index", "record with channelIndex %d (nchan %d)", c, nchan)
+			}
+			per[c].recs = append(per[c].recs, r)
+		}
+		for c := 0; c < nchan; c++ {
+			o := chanObs{recs: per[c].recs, epochs: []epoch{{ts: tss[c], npre: npre, nsamp: nsamp}}}
+			checkExcerpts(w, c, &o)
+		}
+	}
+	env.Sample(map[string]interface{}{"nchan": nchan, "runs": nruns, "final_connections": connString(conn), "records": len(w.sk.recs)})
 }
 
 // checkCycle validates one processing cycle: the published batches split into a
